@@ -57,7 +57,7 @@ def product_stage(prop, name, module, base_cfg, overrides, replayer="replay_pars
     ov = dict(overrides); ov["EmitOn"] = "TRUE"
     vlib.mk_cfg(cfg, os.path.join(SPEC, base_cfg), ov)
     meta = tempfile.mkdtemp(prefix="tlc-", dir=odir)
-    tlc = vlib.tlc_cmd(module, os.path.basename(cfg), workers=workers, metadir=meta, heap=heap)
+    tlc = vlib.tlc_cmd(module, os.path.basename(cfg), workers=workers, metadir=meta, heap=os.environ.get("VERIF_HEAP", heap))
     rp = ("%s/%s --prop %s --memprop %s --outdir %s --tlclog %s/tlc.log --summary %s/sum.json --samples %s/samples.txt %s"
           % (bdir, replayer, prop, memprop or MEMPROP.get(replayer, "C01"), odir, odir, odir, odir, extra_replayer_args))
     cmd = "cd %s && timeout %d %s 2>&1 | %s 2>%s/replayer.err" % (SPEC, timeout, tlc, rp, odir)
@@ -280,7 +280,7 @@ NAV_STAGES = {
             "thorough": [("lookup-structure", _nav(5, 3, "ValsInt1", "NamesAB", "LookAB", "OpsLook", "RootsOA")),
                          ("lookup-names", _nav(3, 3, "ValsMix", "NamesRich", "LookRich", "OpsLook", "RootsO")),
                          ("lookup-long-names", _nav(4, 3, "ValsInt1", "NamesLong", "LookLong", "OpsLook", "RootsO")),
-                         ("lookup-history-2", _nav(3, 3, "ValsInt1", "NamesAB", "LookAB", "OpsLook", "RootsOA", HistK=2)),
+                         ("lookup-history-2", _nav(3, 3, "ValsInt1", "NamesAB", "LookSmall", "OpsLook", "RootsOA", HistK=2)),
                          ("lookup-raw", _nav(4, 3, "ValsInt1", "NamesAB", "LookAB", "OpsAll", "RootsOA"))]},
     "C10": {"quick":    [("transcribe-structure", _nav(5, 4, "ValsInt1", "NamesAB", "LookAB", "OpsTrans", "RootsOA", 10)),
                          ("transcribe-values", _nav(2, 3, "ValsAll", "NamesRich", "LookAB", "OpsTrans", "RootsOA", 10)),
@@ -459,6 +459,11 @@ WRITER_STAGES = {
             "thorough": [("calls-k4", dict(K=4, Alpha="AlphaQ", WithReset="FALSE", AllCaps="FALSE")),
                          ("calls-k4-ints", dict(K=4, Alpha="AlphaInts", WithReset="FALSE", AllCaps="FALSE"))]},
 }
+WRITERDOC_STAGES = {
+    "quick":    [("documents", dict(MaxNodes=5, MaxNest=3, ValCalls="ValsDoc1", DocNames="NamesEAB", AllCaps="FALSE"))],
+    "thorough": [("documents", dict(MaxNodes=5, MaxNest=3, ValCalls="ValsDoc", DocNames="NamesEAB", AllCaps="FALSE")),
+                 ("documents-nul-names", dict(MaxNodes=4, MaxNest=3, ValCalls="ValsDoc1", DocNames="NamesNul", AllCaps="FALSE"))],
+}
 ASSUME_WRITER = [
     "Layer I (spec/WriterImpl.tla) transcribes binson_writer.c; bound to the code by comparing the exact number of bytes stored (drift reported)",
     "stored bytes are observed by running every behaviour over 0xAA and over 0x55 fill; ASan with an exact-size destination observes any byte beyond the capacity",
@@ -471,6 +476,10 @@ def check_writer(prop, tier, replay):
         return replay_file(prop, replay, "replay_writer")
     t0 = time.time()
     stages = [product_stage(prop, name, "MC_Writer.tla", "MC_Writer.cfg", c, replayer="replay_writer") for name, c in WRITER_STAGES[prop][tier]]
+    if prop == "C05":
+        # documents rather than flat call lists: nested objects/arrays, names ascending, the empty name included
+        for name, c in WRITERDOC_STAGES[tier]:
+            stages.append(product_stage(prop, name, "MC_WriterDoc.tla", "MC_WriterDoc.cfg", c, replayer="replay_writer"))
     stages.append(trace_stage(prop, "recorded-long-payloads", "record_writer", "--runs %d" % (400 if tier == "quick" else 6000),
                               "TraceWriter.tla", "TraceWriter.cfg", memprop="C04"))
     if prop == "C04":
@@ -492,8 +501,10 @@ TOSTRING_STAGES = {
                          ("prior-state", _ts(4, 3, "ValsText", "NamesAB", "FALSE", "TRUE", "RootsOA", "Pres012"))]},
     "C14": {"quick":    [("siblings", _ts(5, 4, "ValsOne", "NamesAB", "FALSE", "FALSE")),
                          ("values", _ts(2, 2, "ValsWide", "NamesOdd", "FALSE", "FALSE")),
-                         ("text", _ts(3, 3, "ValsText", "NamesAB", "FALSE", "FALSE"))],
+                         ("text", _ts(3, 3, "ValsText", "NamesAB", "FALSE", "FALSE")),
+                         ("prior-state", _ts(2, 3, "ValsText", "NamesAB", "FALSE", "FALSE", "RootsOA", "Pres012"))],
             "thorough": [("siblings", _ts(7, 4, "ValsOne", "NamesAB", "FALSE", "FALSE")),
+                         ("prior-state", _ts(3, 3, "ValsText", "NamesAB", "FALSE", "FALSE", "RootsOA", "Pres012")),
                          ("values", _ts(3, 3, "ValsWide", "NamesOdd", "FALSE", "FALSE")),
                          ("text", _ts(4, 3, "ValsText", "NamesAB", "FALSE", "FALSE"))]},
 }
@@ -549,6 +560,8 @@ def check_class(prop, tier, replay):
         return replay_file(prop, replay, "replay_class")
     t0 = time.time()
     stages = [product_stage(prop, name, "MC_Class.tla", "MC_Class.cfg", c, replayer="replay_class") for name, c in CLASS_STAGES[tier]]
+    stages.append(trace_stage(prop, "recorded-documents", "record_class", "--docs %d" % (400 if tier == "quick" else 6000),
+                              "TraceClass.tla", "TraceClass.cfg", memprop="C15"))
     return finish(prop, tier, stages, t0, ASSUME_CLASS)
 
 
@@ -581,6 +594,88 @@ def _max_stack(datafile):
             if g in funcs: dfs(g, path2, tot2)
     for f in funcs: dfs(f, [], 0)
     return best
+
+
+CG_DRIVERS = {
+    "quick":    [("record_parser", "--mode mixed --docs 300"), ("record_parser", "--mode hostile --docs 300"), ("record_parser", "--mode valid --docs 150"),
+                 ("record_writer", "--runs 200"), ("record_tostring", "--docs 60")],
+    "thorough": [("record_parser", "--mode mixed --docs 4000 --big"), ("record_parser", "--mode hostile --docs 4000"), ("record_parser", "--mode valid --docs 2000 --big"),
+                 ("record_parser", "--mode mutate --docs 4000"), ("record_writer", "--runs 3000"), ("record_tostring", "--docs 600 --big")],
+}
+
+
+def observed_stacks_stage(prop, tier, base, datafile):
+    """code -> spec for C17: the recorders run in a build whose LIBRARY objects are compiled with
+    -finstrument-functions; every distinct call stack that occurs (with the stack bytes measured for it) and the
+    number of allocator calls made inside library calls are validated by TLC (spec/CallGraphTrace.tla) against the
+    call-graph model extracted for gcc -O0."""
+    t0 = time.time()
+    d = os.path.join(base, "observed-call-stacks"); os.makedirs(d)
+    inc = "-DBINSON_PARSER_WITH_PRINT -I%s/include -I%s" % (vlib.REPO, vlib.HARNESS)
+    objs = []
+    for src in vlib.LIB_C:
+        o = os.path.join(d, os.path.basename(src) + ".o")
+        r = subprocess.run("gcc -std=c99 -O0 -g %s -finstrument-functions -c %s/%s -o %s" % (inc, vlib.REPO, src, o), shell=True, capture_output=True, text=True)
+        if r.returncode != 0:
+            raise Infra("repository source %s does not compile (instrumented): %s" % (src, r.stderr[-1500:]))
+        objs.append(o)
+    r = subprocess.run("gcc -std=gnu99 -O0 -g -c %s/cg_hooks.c -o %s/cg_hooks.o" % (vlib.HARNESS, d), shell=True, capture_output=True, text=True)
+    if r.returncode != 0:
+        raise Infra("cg_hooks.c does not compile: " + r.stderr[-1500:])
+    lines = []; notes = 0; calls = 0; allocs = 0; overflow = 0; nstacks = 0
+    for k, (prog, args) in enumerate(CG_DRIVERS[tier]):
+        exe = os.path.join(d, prog)
+        if not os.path.exists(exe):
+            r = subprocess.run("gcc -std=gnu99 -O0 -g -no-pie %s %s/%s.c %s %s/cg_hooks.o -Wl,--wrap=malloc,--wrap=calloc,--wrap=realloc,--wrap=free -o %s"
+                               % (inc, vlib.HARNESS, prog, " ".join(objs), d, exe), shell=True, capture_output=True, text=True)
+            if r.returncode != 0:
+                raise Infra("recorder %s does not build against the current tree: %s" % (prog, r.stderr[-1500:]))
+        sym = {}
+        for ln in subprocess.run("nm %s" % exe, shell=True, capture_output=True, text=True).stdout.splitlines():
+            f = ln.split()
+            if len(f) == 3 and f[1] in "tT":
+                sym[int(f[0], 16)] = f[2]
+        cg = os.path.join(d, "obs-%d.cg" % k)
+        e = dict(os.environ); e["VERIF_CG_OUT"] = cg
+        r = subprocess.run("timeout 900 %s --seed %d %s --out /dev/null" % (exe, vlib.SEED, args), shell=True, capture_output=True, text=True, env=e)
+        if r.returncode != 0 or not os.path.exists(cg):
+            print("NOTE other-property violation property=C01 replay=%s (not counted by the %s check)" % (exe, prop))
+            print("  detail: recorder '%s %s' died in the instrumented build (exit %d): %s" % (prog, args, r.returncode, r.stderr.strip()[-200:]))
+            notes += 1
+            continue
+        for ln in open(cg):
+            f = ln.split()
+            if f[0] == "allocs":
+                allocs += int(f[1]); calls += int(f[3]); overflow += int(f[7])
+            else:
+                names = [sym.get(int(a, 16), "?" + a) for a in f[3:]]
+                lines.append(json.dumps({"kind": "stack", "stk": names, "bytes": int(f[1]), "hits": int(f[2]), "driver": prog}))
+                nstacks += 1
+    lines.append(json.dumps({"kind": "allocs", "n": allocs, "overflow": overflow, "stk": [], "bytes": 0}))
+    trace = os.path.join(d, "trace.ndjson"); open(trace, "w").write("\n".join(lines) + "\n")
+    shutil.copy(datafile, d); shutil.copy(os.path.join(SPEC, "CallGraphTrace.tla"), d); shutil.copy(os.path.join(SPEC, "CallGraphTrace.cfg"), d)
+    e = dict(os.environ); e["TRACE"] = trace
+    r = subprocess.run("cd %s && timeout 600 %s" % (d, vlib.tlc_cmd("CallGraphTrace.tla", "CallGraphTrace.cfg", workers=1, metadir=os.path.join(d, "meta"), heap="2g")),
+                       shell=True, capture_output=True, text=True, env=e)
+    shutil.rmtree(os.path.join(d, "meta"), ignore_errors=True)
+    open(os.path.join(d, "tlc-trace.log"), "w").write(r.stdout[-100000:])
+    viol = re.findall(r'"TRACE-VIOLATION C17: (line \d+): ([^"]*)"', r.stdout)
+    m = re.search(r'<<"TRACE-SUMMARY", (\d+), (\d+), (\d+)>>', r.stdout)
+    tl = vlib.parse_tlc_log(r.stdout)
+    if not viol and not (tl["ok"] and "Postcondition" not in r.stdout):
+        raise Infra("validation of the observed call stacks did not complete: %s" % (tl["error"] or r.stdout[-600:]))
+    nviol = 0
+    for line, what in viol[:10]:
+        ln = int(line.split()[1])
+        vf = os.path.join(d, "viol-C17-%d.ndjson" % ln)
+        open(vf, "w").write(lines[ln - 1] + "\n")
+        print("VIOLATION property=C17 replay=%s" % vf); nviol += 1
+        print("  detail: observed execution: %s" % what)
+    return {"stage": "observed-call-stacks", "kind": "code->spec trace validation", "module": "CallGraphTrace.tla",
+            "recorder": "; ".join("%s %s" % x for x in CG_DRIVERS[tier]), "library_calls_observed": calls, "distinct_call_stacks": nstacks,
+            "allocator_calls_inside_library": allocs, "edges_observed": int(m.group(2)) if m else 0, "edges_in_model": int(m.group(3)) if m else 0,
+            "events": len(lines), "traces_validated": len(lines), "states": tl["distinct"], "transitions": tl["states"],
+            "violations": nviol, "other_property_notes": notes, "samples": lines[:2], "wall_s": round(time.time() - t0, 1), "exhaustive": False}
 
 
 def check_callgraph(prop, tier, replay):
@@ -620,6 +715,9 @@ def check_callgraph(prop, tier, replay):
             print("VIOLATION property=C17 replay=%s/CallGraphData.tla" % d)
             print("  detail: %s: %s (see %s/tlc.log)" % (name, bad, d))
         stages.append(st)
+    # the extracted model bound to executions: observed call stacks must be behaviours of the gcc -O0 model
+    dyn = observed_stacks_stage(prop, tier, base, os.path.join(base, "gcc-O0-print", "CallGraphData.tla"))
+    nviol += dyn["violations"]; stages.append(dyn)
     return finish(prop, tier, stages, t0, ["gcc 12 -fcallgraph-info/-fstack-usage/-fdump-ipa-cgraph, nm and size describe the object code faithfully",
                                             "an indirect call targets an address-taken library function or the opaque user callback",
                                             "libc functions called (memset memcmp memmove strlen snprintf printf putchar) do not allocate on behalf of the library"])
